@@ -86,6 +86,8 @@ def run(ctx):
 
     # ---- conversations from the independent encoder through the real dissector
     convs = K.gen(ctx)
+    # a message of exactly the largest size the dissector takes, and one byte less (bytes after the decoded layout are skipped)
+    convs = convs + K.padded_variants(convs)
     cases = [K.conv_case(c) for c in convs]
     origin = list(range(len(convs)))
     # the same conversations under other segmentations (a few pieces, single bytes)
@@ -134,9 +136,10 @@ def run(ctx):
 
     # ---- correspondence of the model with the real decoder: the conversations and mutations of them
     if model_ok:
-        kcases, kres = list(cases[:len(convs)]), list(res[:len(convs)])
+        nk = [i for i in range(len(convs)) if convs[i]["kind"] != "padded"]      # (a megabyte of padding is not handed to Coq)
+        kcases, kres = [cases[i] for i in nk], [res[i] for i in nk]
         muts = []
-        pool = [c for c in convs if len(c["client"]) + len(c["server"]) < 3000]
+        pool = [c for c in convs if len(c["client"]) + len(c["server"]) < 3000 and c["kind"] != "padded"]
         for conv in rng.sample(pool, min(len(pool), 40 if quick else 200)):
             muts += K.corruptions(rng, conv, 4)
             fields = K.length_fields(conv)
@@ -153,7 +156,7 @@ def run(ctx):
                 ctx.violation(K.raw_replay(c, "kafka Dissect did not return normally on a mutated conversation", "vh-kafka run"))
         K.report_K(ctx, "c06", kcases + muts, kres + mres)
         if "Kafka/KafkaSpecEnc.v" not in failed and "gen/KafkaSpecSchemas.v" not in failed:
-            K.spec_encoder_tie(ctx, convs)
+            K.spec_encoder_tie(ctx, [c for c in convs if c["kind"] != "padded"])
     else:
         ctx.broken.append("K_kafka: the model does not build; correspondence not run")
 
